@@ -10,7 +10,7 @@ NEW_ELEMENTS = ["Si", "P", "S", "Zr", "Cu", "Zn", "B", "Cl"]
 FRACTIONS = [0.0, 0.1, 0.25, 0.5, 0.75, 1.0]
 F_WEIGHTED = [0.0, 0.1, 0.25, 0.25, 0.5, 0.5, 0.5, 0.75, 0.75, 0.75, 1.0, 1.0, 1.0, 1.0]
 MODES = ["empty", "smaller", "equal", "larger"]
-NUDGE = Fraction(1, 1024)          # a displacement far above the 1e-5 identification threshold, far below atol
+NUDGE = Fraction(1, 1024)          # unit of displacement (x1..30: 0.001 .. 0.03 A): above the 1e-5 identification threshold, below atol
 
 
 def fr(v):
@@ -45,7 +45,7 @@ def make_replacement(rng, pelems, ppos, mode=None, shared=None, struct_elems=())
             e = rng.choice([c for c in pool if c != pelems[j]])
         if how in ("nudge", "both"):
             k = rng.randrange(3)
-            x[k] = x[k] + rng.choice([1, -1]) * NUDGE * rng.randint(1, 3)
+            x[k] = x[k] + rng.choice([1, -1]) * NUDGE * rng.choice([1, 2, 3, 4, 10, 16, 20, 24, 30])
         return e, x
 
     keep = list(range(n))
@@ -112,13 +112,72 @@ def structure_json(rng, case, relabel=None):
     return sj
 
 
-def random_case(rng, mode=None, shared=None, f=None, replace_all=None, pname=None, cell_kind=None, ncopies=None):
+def unwrap_some(rng, case, atol, matched=None):
+    """give the periodic structure partly UNWRAPPED coordinates: add 1-2 bystander atoms (noble gases) lying slightly
+    outside the cell, and (matched=True / at random) move atoms of the planted copies that sit close to a face to the
+    equivalent position just outside the opposite face.  Every displacement out of the cell is <= 0.4 A and below 80 % of
+    the search length (pattern diameter + 2 atol): a legitimate description of the same crystal that the library
+    handles.  Returns the number of atoms now outside [0, L)."""
+    import numpy as np
+    cellf = np.array(case["cell"], dtype=float)
+    cinv = np.linalg.inv(cellf)
+    w = fl.perp_widths(case["cell"])
+    maxd = min(0.4, 0.8 * (fl.diam(case["pattern"]["pos"]) + 2 * atol))
+    n_out = 0
+    pos = [np.array(v, dtype=float) for v in case["pos"]]
+    if matched if matched is not None else rng.random() < 0.5:
+        # the FIRST atom of a copy is the search's starting atom: the library only looks `search length` beyond the
+        # faces, so a starting atom further out than 2 atol can lose its own copy (observed on the clean tree; a matter
+        # of C02's domain "atoms inside the cell", not of C04) - keep those within atol
+        lim = {}
+        for grp in case["planted"]:
+            for i in grp:
+                lim[i] = min(maxd, atol) if i == min(grp) else maxd
+        for i in sorted(lim):
+            f = pos[i].dot(cinv)
+            moved = False
+            for k in range(3):
+                if rng.random() < 0.6:
+                    if (1.0 - f[k]) * w[k] <= lim[i]:
+                        f[k] -= 1.0
+                        moved = True
+                    elif f[k] * w[k] <= lim[i]:
+                        f[k] += 1.0
+                        moved = True
+            if moved:
+                pos[i] = f.dot(cellf)
+                n_out += 1
+    for _ in range(rng.randint(1, 2)):
+        for attempt in range(60):
+            f = np.array([rng.random() for _ in range(3)])
+            for k in rng.sample(range(3), rng.choice([1, 1, 2])):
+                d = rng.uniform(0.02, maxd) / w[k]
+                f[k] = -d if rng.random() < 0.5 else 1.0 + d
+            v = f.dot(cellf)
+            ok = True
+            for qpt in pos:
+                dv = (v - qpt).dot(cinv)
+                dv -= np.round(dv)
+                if np.linalg.norm(dv.dot(cellf)) < 2.2:
+                    ok = False
+                    break
+            if ok:
+                case["elems"].append(rng.choice(["Ar", "Kr", "Xe", "Ne"]))
+                pos.append(v)
+                n_out += 1
+                break
+    case["pos"] = [[float(x) for x in v] for v in pos]
+    return n_out
+
+
+def random_case(rng, mode=None, shared=None, f=None, replace_all=None, pname=None, cell_kind=None, ncopies=None, unwrapped=None):
     """one C04 case: dict(sj, pj, rj, atol, f, replace_all, ignore, seed, info)"""
     pname = pname or rng.choice([k for k in fl.PATTERNS])
     atol = 0.05
     boundary = rng.choice([None, None, "face", "corner"])
     case = fl.planted_structure(rng, pname=pname, cell_kind=cell_kind, ncopies=ncopies if ncopies is not None else rng.choice([1, 2, 3, 3, 4, 4, 5, 5]),
                                 atol=atol, decoys=rng.random() < 0.5, boundary=boundary)
+    n_out = unwrap_some(rng, case, atol) if (unwrapped if unwrapped is not None else rng.random() < 0.4) else 0
     pe, pp = case["pattern"]["elems"], case["pattern"]["pos"]
     relems, rpos, rinfo = make_replacement(rng, pe, pp, mode=mode, shared=shared, struct_elems=sorted(set(case["elems"])))
     sj = structure_json(rng, case)
@@ -129,6 +188,6 @@ def random_case(rng, mode=None, shared=None, f=None, replace_all=None, pname=Non
         f = rng.choice(F_WEIGHTED) if rng.random() < 0.7 else round(rng.random(), rng.choice([2, 3, 6]))
     if replace_all is None:
         replace_all = rng.random() < 0.3
-    info = dict(case["info"], boundary=boundary, **rinfo)
+    info = dict(case["info"], boundary=boundary, outside=n_out, **rinfo)
     return {"op": "replace-c04", "sj": sj, "pj": pj, "rj": rj, "atol": atol, "f": f, "replace_all": bool(replace_all),
             "ignore": False, "seed": rng.randrange(1 << 30), "info": info}
